@@ -239,7 +239,7 @@ def check_trace(case):
     if case.get('kind') == 'steer':
         return check_steer(case)
     threads = case['threads']
-    lines = ['trace %%OUT%% %d %d %d %d %d' % (case['pname'], 1 if case['main'] else 0, len(threads), case.get('locale', 0), case.get('atexit', 0))]
+    lines = ['trace %%OUT%% %d %d %d %d %d %d' % (case['pname'], 1 if case['main'] else 0, len(threads), case.get('locale', 0), case.get('atexit', 0), case.get('pipe', 0))]
     for t in threads:
         lines.append('thread %d %d' % (t['name'], len(t['events'])))
         for e in t['events']:
@@ -305,6 +305,8 @@ def check_trace(case):
         labels.append('global-locale-with-grouping')
     if case.get('atexit', 0):
         labels.append('saved-from-an-atexit-handler')
+    elif case.get('pipe', 0):
+        labels.append('saved-into-a-pipe')
     nontrivial = len([t for t in threads if t['events']]) >= 2 or chunk or maxdepth >= 2
     return nontrivial, labels
 
@@ -427,7 +429,7 @@ def campaign(which):
                         else:
                             evs.append(['I', (a + j) % len(NAMES), b])
                 threads.append(dict(name=names[i] if draw(st.booleans()) else -1, events=evs))
-            return dict(pname=draw(st.integers(-1, len(PNAMES) - 1)), main=draw(st.booleans()), threads=threads, locale=draw(st.sampled_from([0, 0, 0, 1, 2])), atexit=draw(st.sampled_from([0, 0, 1])))
+            return dict(pname=draw(st.integers(-1, len(PNAMES) - 1)), main=draw(st.booleans()), threads=threads, locale=draw(st.sampled_from([0, 0, 0, 1, 2])), atexit=draw(st.sampled_from([0, 0, 1])), pipe=draw(st.sampled_from([0, 0, 1])))
         max_examples = int(300 * scale)
 
     def body(case):
